@@ -56,13 +56,40 @@ def other_kind_value(kind, cur, ops, j):
     return None
 
 
-@st.composite
-def mutation(draw, spec, serial=0):
+MUTATION_KINDS = ['value', 'value-kind', 'rename', 'origin', 'data', 'data-same-type', 'cast', 'cast-clear', 'dimension',
+                  'hdr-seq', 'set-rename']
+
+
+def mutation(spec, serial=0, want=None, probe=None, at=None):
+    """Strategy for one mutation of `spec`; with `want`, of that kind if some object admits it."""
     ops = spec['lfs'][0]['ops']
     idx = [j for j, op in enumerate(ops) if op['t'] not in ('nfdata',)]
     free_code = [k for k in idx if any(a.kind in ('generic', 'dtnum', 'reftext') and 'v' in (ops[k].get('attrs') or {}).get(kw, {})
                                        for kw, a in TYPES[ops[k]['t']]['attrs'].items())]
-    j = draw(st.sampled_from(free_code)) if free_code and draw(st.booleans()) else draw(st.sampled_from(idx))
+    if probe is not None:
+        return _mutation_at(spec, serial, probe, 'PROBE', free_code, idx)
+    if at is not None:
+        return _mutation_at(spec, serial, at, want, free_code, idx)
+    if want is not None:
+        return _wanted(spec, serial, want, idx)
+    return _mutation_at(spec, serial, None, None, free_code, idx)
+
+
+@st.composite
+def _wanted(draw, spec, serial, want, idx):
+    for jj in draw(st.permutations(idx)):
+        if want in draw(mutation(spec, serial, probe=jj)):
+            return draw(mutation(spec, serial, want=want, at=jj))
+    return draw(mutation(spec, serial))
+
+
+@st.composite
+def _mutation_at(draw, spec, serial, at, want, free_code, idx):
+    ops = spec['lfs'][0]['ops']
+    if at is not None:
+        j = at
+    else:
+        j = draw(st.sampled_from(free_code)) if free_code and draw(st.booleans()) else draw(st.sampled_from(idx))
     op = ops[j]
     kinds = []
     # renaming is unambiguous only when no other object of the kind shares the old name (copy numbers are fixed at
@@ -93,9 +120,12 @@ def mutation(draw, spec, serial=0):
         if op.get('cast'):
             kinds += ['cast-clear']
     kinds += ['hdr-seq', 'set-rename']
-    if not kinds:
-        return {'kind': 'none', 'op': j}
-    kind = 'value-kind' if rekind and draw(st.integers(0, 3)) else draw(st.sampled_from(kinds))
+    if want == 'PROBE':
+        return kinds
+    if want is not None and want in kinds:
+        kind = want
+    else:
+        kind = 'value-kind' if rekind and draw(st.integers(0, 3)) else draw(st.sampled_from(kinds))
     m = {'kind': kind, 'op': j}
     if kind == 'value':
         kw = draw(st.sampled_from(settable))
@@ -153,11 +183,12 @@ def mutation(draw, spec, serial=0):
 
 
 @st.composite
-def histories(draw):
+def histories(draw, force=None):
     n_slots = draw(st.integers(1, 2))
     specs = []
-    for _ in range(n_slots):
-        source = draw(st.sampled_from(['inline', 'inline', 'dict']))
+    for slot in range(n_slots):
+        source = 'dict' if (slot == 0 and force in ('data', 'data-same-type')) else \
+            draw(st.sampled_from(['inline', 'inline', 'dict']))
         specs.append(draw(file_specs(slot_profile(source))))
     steps = [{'do': 'build', 'slot': 0}]
     built = {0}
@@ -196,6 +227,18 @@ def histories(draw):
             steps.append({'do': 'hc-write'})
     if not any(s['do'] == 'write' for s in steps):
         steps.append({'do': 'write', 'slot': 0, 'w': {}})
+    if force is not None:
+        # the stratum's step pattern closes the history: write, the wanted kind of change, write again
+        steps = steps[:5]
+        steps.append({'do': 'write', 'slot': 0, 'w': {}})
+        if force == 'window':
+            from vf.spec.strategies import min_rows
+            rows = min_rows(specs[0]['lfs'][0])
+            f = draw(st.integers(0, max(0, rows - 1)))
+            steps.append({'do': 'write', 'slot': 0, 'w': {'from': f, 'to': draw(st.integers(f + 1, max(f + 1, rows)))}})
+        else:
+            steps.append({'do': 'mutate', 'slot': 0, 'm': draw(mutation(specs[0], len(steps), want=force))})
+            steps.append({'do': 'write', 'slot': 0, 'w': {}})
     return {'kind': 'history', 'specs': specs, 'steps': steps}
 
 
@@ -331,7 +374,10 @@ class C14(Property):
 
     def searches(self, ctx):
         n = 640 if ctx.tier == 'quick' else 6400
-        return [('histories', histories(), n // ctx.nshards)]
+        from vf.core import stratified
+        # free histories, plus one stratum per kind of change between two writes of one file
+        return [('histories', histories(), (n // 2) // ctx.nshards)] + \
+            stratified('change', lambda k: histories(k), MUTATION_KINDS + ['window'], n // 2, ctx)
 
     def run(self, case, ctx):
         dw.check_import_location()
